@@ -387,27 +387,55 @@ def sbLayout (v : Ver) (sb : SigBlock) : SbOffsets :=
   let (blobOff, st4) := sbStep aligned st3 sb.blobLen
   ⟨srkOff, sigOff, certOff, blobOff, st4.1 + st4.2⟩
 
-/-- `buf[off : off+len(d)] = d` on a bytearray (equal-length slice assignment; `d = []` leaves it alone) -/
+/-- `buf[off : off+L] = d` on a bytearray (slice assignment: the slice of declared length `L` is replaced by `d`) -/
+def blitL (buf : Bytes) (off L : Nat) (d : Bytes) : Bytes := buf.take off ++ d ++ buf.drop (off + L)
+
+/-- `if block: buf[off : off+len(block)] = block.export()` for a block whose `len()` is the length of its bytes -/
 def blitB (buf : Bytes) (off : Nat) (d : Bytes) : Bytes :=
-  if d.isEmpty then buf else buf.take off ++ d ++ buf.drop (off + d.length)
+  if d.isEmpty then buf else blitL buf off d.length d
+
+def SigBlock.keyId (sb : SigBlock) : Nat := match sb.blob with | some b => b.keyIdentifier | none => AhabConsts.reserved
+
+/-- the 16-byte header of the signature block -/
+def sbHeader (v : Ver) (o : SbOffsets) (keyId : Nat) : PyRes Bytes :=
+  packChecked (v.sbLayout).intWidths
+    [v.sigBlockVersion, o.length, AhabConsts.sigBlockTag, o.certOff, o.srkOff, o.sigOff, o.blobOff, keyId]
+
+def encodeBlobOpt (sb : SigBlock) : PyRes Bytes := match sb.blob with | some b => encodeBlob b | none => .ok []
+
+/-- the buffer after header and SRK table (array) have been written -/
+def sbHead (o : SbOffsets) (hdr srk : Bytes) : Bytes := blitB (blitB (zerosB o.length) 0 hdr) o.srkOff srk
+
+/-- the second (PQC) signature of a version-2 block: written right behind the first one, only inside `if self.signature:` -/
+def sig2Step (v : Ver) (sb : SigBlock) (o : SbOffsets) (buf sg sg2 : Bytes) : Bytes :=
+  match v with
+  | .v1 => buf
+  | .v2 => if sb.signature.isEmpty then buf else blitB buf (o.sigOff + sg.length) sg2
+
+/-- the blob: `len(self.blob)` is the length FIELD of the blob header -/
+def blobStep (sb : SigBlock) (o : SbOffsets) (buf bl : Bytes) : Bytes :=
+  match sb.blob with
+  | some b => blitL buf o.blobOff b.length bl
+  | none => buf
+
+/-- signature(s), certificate and blob written into the buffer -/
+def sbTail (v : Ver) (sb : SigBlock) (o : SbOffsets) (buf sg sg2 bl : Bytes) : Bytes :=
+  blobStep sb o (blitB (sig2Step v sb o (blitB buf o.sigOff sg) sg sg2) o.certOff sb.cert) bl
 
 /-- `SignatureBlock[V2].export()` with the offsets `o` stored in the object -/
 def encodeSigBlock (v : Ver) (sb : SigBlock) (o : SbOffsets) : PyRes Bytes :=
-  let keyId := match sb.blob with | some b => b.keyIdentifier | none => AhabConsts.reserved
-  match packChecked (v.sbLayout).intWidths [v.sigBlockVersion, o.length, AhabConsts.sigBlockTag, o.certOff, o.srkOff, o.sigOff, o.blobOff, keyId],
-        encodeSignature sb.signature, encodeSignature sb.signature2,
-        (match sb.blob with | some b => encodeBlob b | none => .ok []) with
-  | .ok hdr, .ok sg, .ok sg2, .ok bl =>
-    let buf := blitB (zerosB o.length) 0 hdr
-    let buf := blitB buf o.srkOff sb.srk
-    let buf := blitB buf o.sigOff sg
-    let buf := match v with | .v1 => buf | .v2 => blitB buf (o.sigOff + sg.length) sg2
-    let buf := blitB buf o.certOff sb.cert
-    .ok (blitB buf o.blobOff bl)
-  | .error e, _, _, _ => .error e
-  | _, .error e, _, _ => .error e
-  | _, _, .error e, _ => .error e
-  | _, _, _, .error e => .error e
+  match sbHeader v o sb.keyId with
+  | .error e => .error e
+  | .ok hdr =>
+    match encodeSignature sb.signature with
+    | .error e => .error e
+    | .ok sg =>
+      match encodeSignature sb.signature2 with
+      | .error e => .error e
+      | .ok sg2 =>
+        match encodeBlobOpt sb with
+        | .error e => .error e
+        | .ok bl => .ok (sbTail v sb o (sbHead o hdr sb.srk) sg sg2 bl)
 
 /-! ## container -/
 
@@ -479,14 +507,15 @@ def decodeIaes (l : AhabConsts.Layout) (b : Bytes) : Nat → Nat → Option (Lis
 def exportContainerWith (v : Ver) (c : Container) (iaes : List Iae) : PyRes Bytes :=
   let o := sbLayout v c.sb
   let n := iaes.length
-  match encodeHeader v (headerLength v n o.length) c.flags c.swVersion c.fuseVersion n (sigBlockOffset v n),
-        encodeIaes v.iaeLayout iaes, encodeSigBlock v c.sb o with
-  | .ok h, .ok a, .ok s =>
-    let head := h ++ a
-    .ok (head ++ zerosB (sigBlockOffset v n - head.length) ++ s)
-  | .error e, _, _ => .error e
-  | _, .error e, _ => .error e
-  | _, _, .error e => .error e
+  match encodeHeader v (headerLength v n o.length) c.flags c.swVersion c.fuseVersion n (sigBlockOffset v n) with
+  | .error e => .error e
+  | .ok h =>
+    match encodeIaes v.iaeLayout iaes with
+    | .error e => .error e
+    | .ok a =>
+      match encodeSigBlock v c.sb o with
+      | .error e => .error e
+      | .ok s => .ok (h ++ a ++ zerosB (sigBlockOffset v n - (h ++ a).length) ++ s)
 
 /-- `get_signature_data()`: the exported container up to the signature container -/
 def signatureData (v : Ver) (c : Container) (iaes : List Iae) : PyRes Bytes :=
